@@ -154,7 +154,7 @@ Definition match_selfies_atom (symbol : str) : option sym_fields :=
     let '(bond, s2) := match s1 with
                        | c :: r => if is_bond_prefix c then (Some c, r) else (None, s1)
                        | [] => (None, s1) end in
-    let '(iso, s3) := span isdecimal s2 in
+    let '(iso, s3) := span is_09 s2 in
     match s3 with
     | e1 :: s4 =>
       if negb (is_upper e1) then None else
@@ -165,7 +165,7 @@ Definition match_selfies_atom (symbol : str) : option sym_fields :=
                         else if prefix_of (lit "@") s5 then (lit "@", skipn 1 s5)
                         else ([], s5) in
       let '(h, s7) := match s6 with
-                      | c :: d :: r => if N.eqb c 72 && isdecimal d then ([c; d], r) else ([], s6)
+                      | c :: d :: r => if N.eqb c 72 && is_09 d then ([c; d], r) else ([], s6)
                       | _ => ([], s6) end in
       let '(chg, s8) := match s7 with
                         | sg :: r =>
